@@ -234,3 +234,74 @@ pub fn c19_t_set1_pairing_after_any_sequence() {
     assert!(press_of(&d) == release_of(&u), "C19: after another sequence, press and release of a sequence name different keys (or only one of them decodes)");
     kani::cover!(ra.is_err() && press_of(&d).is_some());
 }
+
+/// Deep (also run when a closure assertion fails): one-to-one-ness of the sequences that follow an
+/// arbitrary complete sequence on the same decoder.  The per-context injectivity harnesses start
+/// from canonical states and rely on the closure assertions for histories; a decoder that carries
+/// private state across sequences (seed C19-r4m1: a one-entry lookup cache keyed without the prefix
+/// class) keeps every make/break pair consistent and still lets two distinct sequences denote one key.
+#[kani::proof]
+pub fn c19_t_set2_injective_after_any_sequence() {
+    let p0: u8 = kani::any();
+    let p1: u8 = kani::any();
+    let p2: u8 = kani::any();
+    kani::assume(p0 < 6 && p1 < 3 && p2 < 3);
+    let c0: u8 = kani::any();
+    let c1: u8 = kani::any();
+    let c2: u8 = kani::any();
+    let pfx = |c: u8| c == 0xE0 || c == 0xE1 || c == 0xF0;
+    kani::assume(!pfx(c0) && !pfx(c1) && !pfx(c2));
+    kani::assume(p1 != p2 || c1 != c2);
+    let mut a = ctx2(p0);
+    let mut b = ctx2(p0);
+    let ra = a.advance_state(c0);
+    let _ = b.advance_state(c0);
+    let feed = |s: &mut ScancodeSet2, p: u8, c: u8| -> ScanResult {
+        if p == 1 {
+            let _ = s.advance_state(0xE0);
+        } else if p == 2 {
+            let _ = s.advance_state(0xE1);
+        }
+        s.advance_state(c)
+    };
+    let d1 = feed(&mut a, p1, c1);
+    let d2 = feed(&mut b, p2, c2);
+    crate::show!("C19 set2 after ({},{:#04x})->{:?}: ({},{:#04x}) -> {:?}; ({},{:#04x}) -> {:?}", p0, c0, ra, p1, c1, d1, p2, c2, d2);
+    if let (Some(k1), Some(k2)) = (press_of(&d1), press_of(&d2)) {
+        assert!(k1 != k2, "C19: after another sequence, two distinct Set 2 sequences denote the same key");
+    }
+    kani::cover!(ra.is_ok() && press_of(&d1).is_some() && press_of(&d2).is_some());
+}
+
+#[kani::proof]
+pub fn c19_t_set1_injective_after_any_sequence() {
+    let p0: u8 = kani::any();
+    let p1: u8 = kani::any();
+    let p2: u8 = kani::any();
+    kani::assume(p0 < 3 && p1 < 3 && p2 < 3);
+    let c0: u8 = kani::any();
+    let c1: u8 = kani::any();
+    let c2: u8 = kani::any();
+    kani::assume(c1 < 0x80 && c2 < 0x80);
+    kani::assume(!(p0 == 0 && (c0 == 0xE0 || c0 == 0xE1)));
+    kani::assume(p1 != p2 || c1 != c2);
+    let mut a = ctx1(p0);
+    let mut b = ctx1(p0);
+    let ra = a.advance_state(c0);
+    let _ = b.advance_state(c0);
+    let feed = |s: &mut ScancodeSet1, p: u8, c: u8| -> ScanResult {
+        if p == 1 {
+            let _ = s.advance_state(0xE0);
+        } else if p == 2 {
+            let _ = s.advance_state(0xE1);
+        }
+        s.advance_state(c)
+    };
+    let d1 = feed(&mut a, p1, c1);
+    let d2 = feed(&mut b, p2, c2);
+    crate::show!("C19 set1 after ({},{:#04x})->{:?}: ({},{:#04x}) -> {:?}; ({},{:#04x}) -> {:?}", p0, c0, ra, p1, c1, d1, p2, c2, d2);
+    if let (Some(k1), Some(k2)) = (press_of(&d1), press_of(&d2)) {
+        assert!(k1 != k2, "C19: after another sequence, two distinct Set 1 sequences denote the same key");
+    }
+    kani::cover!(ra.is_ok() && press_of(&d1).is_some() && press_of(&d2).is_some());
+}
